@@ -92,6 +92,62 @@ def record(which, cap=4000):
             return r
         for mod, attr in _rebind(orig, is_valid):
             undo.append((mod, attr, orig))
+    if "parse" in which:
+        import isla.parser as PS
+        o = PS.EarleyParser.__dict__["parse"]
+
+        def parse(self, text):
+            rec = None
+            if len(log["parse"]) < cap:
+                rec = {"grammar": self._grammar, "start": self._start_symbol, "text": text, "trees": [], "exc": None, "advanced": False}
+                log["parse"].append(rec)
+            try:
+                for t in o(self, text):
+                    if rec is not None:
+                        rec["advanced"] = True
+                        if len(rec["trees"]) < 10:
+                            rec["trees"].append(t)
+                    yield t
+            except SyntaxError as e:
+                if rec is not None:
+                    rec["advanced"] = True
+                    rec["exc"] = e
+                raise
+        PS.EarleyParser.parse = parse
+        undo.append((PS.EarleyParser, "parse", o))
+    if "tree_ops" in which:
+        from isla.derivation_tree import DerivationTree as DT
+        o_rp = DT.__dict__["replace_path"]
+        o_sub = DT.__dict__["substitute"]
+        calls = [0]
+
+        def replace_path(self, path, replacement_tree, retain_id=False):
+            out = o_rp(self, path, replacement_tree, retain_id)
+            calls[0] += 1
+            if len(log["tree_ops"]) < cap and calls[0] % 7 == 0:
+                log["tree_ops"].append(("replace_path", self, (tuple(path), replacement_tree, retain_id), out))
+            return out
+
+        def substitute(self, subst_map):
+            out = o_sub(self, subst_map)
+            calls[0] += 1
+            if len(log["tree_ops"]) < cap and calls[0] % 7 == 0:
+                log["tree_ops"].append(("substitute", self, dict(subst_map), out))
+            return out
+        DT.replace_path = replace_path
+        DT.substitute = substitute
+        undo.append((DT, "replace_path", o_rp))
+        undo.append((DT, "substitute", o_sub))
+    if "sem_pred" in which:
+        o_sp = L.SemanticPredicate.__dict__["evaluate"]
+
+        def sp_evaluate(self, graph, *instantiations, negate=False):
+            r = o_sp(self, graph, *instantiations, negate=negate)
+            if len(log["sem_pred"]) < cap:
+                log["sem_pred"].append((self.name, graph, instantiations, negate, r))
+            return r
+        L.SemanticPredicate.evaluate = sp_evaluate
+        undo.append((L.SemanticPredicate, "evaluate", o_sp))
     try:
         yield log
     finally:
@@ -116,8 +172,14 @@ def solver_workload(ctx, rng, log_keys, families=None, nsolve=4, budget_s=12, ra
                 if time.time() - t0 > budget_s:
                     break
                 try:
-                    s.solve()
+                    t = s.solve()
                 except Exception:
                     break
+                if "sem_pred" in log_keys:
+                    # the finished solution goes through ISLa's own check(), which evaluates the predicates on a closed tree
+                    try:
+                        s.check(t)
+                    except Exception:
+                        pass
         ctx.guarded(go, timeout=budget_s + 10)
     return fam, gname, g, log
